@@ -113,6 +113,14 @@ def one(ctx: Ctx, spec, dtype, m, exhaustive):
         ctx.count("family", "integer-preference-tensor")
     # (two rows: no path to depend on — exact line search reaches the minimum-norm point of the segment in one step from
     #  anywhere, theorem C18.mgda_two_rows_exact — so the margin rule applies from three rows on)
+    if spec.name == "Krum":
+        # exact (or nearly exact) score ties are excluded by the property: the selection then depends on the index order
+        # (thorough tier, seed 2: a rational-SVD matrix with four rows of EXACTLY equal score)
+        Dk = torch.cdist(Jt.double(), Jt.double(), compute_mode="donot_use_mm_for_euclid_dist")
+        sck = Dk.topk(k=m - 1 - 2 + 1, largest=False).values[:, 1:].sum(dim=1).sort().values
+        if float(sck[1] - sck[0]) < 1e-6 * max(float(sck[0]), 1e-300):
+            ctx.count("skipped_low_margin", "Krum: score tie")
+            return
     if spec.name == "MGDA" and m >= 3 and mgda_margin(Jt) < (1e-3 if dtype == torch.float32 else 1e-7):
         ctx.count("skipped_low_margin", "MGDA")       # a near-tie in some iteration: the path may depend on the row order
         return
